@@ -30,7 +30,9 @@ ASSUMPTIONS = ['alpha, shift rational (every float is); phases multiples of 1/L 
                'Gaussian-integer input data; comparison tolerance 1e-9*(1+max|model|)']
 RULE = ('random dft2/idft2/round-trip cases: shapes 1..7 (odd, even, 1, non-square), alpha_r, alpha_c = p/q independent, '
         'shifts k/4 or k/2, offsets in [-6,6], both flags, out in {None, complex buffer, f itself, float buffer, wrong shape} (dft2 and idft2); '
-        'the entry points with every argument form (scalar, 0-d, 1- / 2- / 3- / 0-element sequences, ndarrays, nested), shape None / '
+        'whole-pixel shift / shape / offset as uint8..uint64, int8..int32 arrays or numpy scalars; every case under one of the numpy '
+        'error states default / raise / ignore with warnings as errors (np.geterr() unchanged); results of a history held to its '
+        'end and edited in place by the caller; the entry points with every argument form (scalar, 0-d, 1- / 2- / 3- / 0-element sequences, ndarrays, nested), shape None / '
         'scalar / zero / negative, inputs of rank 0, 1, 3 and empty inputs, and every kind of out= buffer (complex128, float, int, bool, '
         'complex64, clongdouble, object, Fortran order, strided, transposed, wrong shape): values and exception kinds compared with '
         'the model; inputs scaled by 1e-13..1e12 (scale covariance), ndarray subclasses (np.matrix, MaskedArray without masked entries, a metadata '
@@ -180,6 +182,31 @@ def gen_dtypes(rng, tier, maxn):
                         break
                 lo, hi = (0, 1) if dt == 'bool_' else (0, 8) if dt == 'uint8' else (-8, 8)
                 c['f'] = [[[rng.randint(lo, hi), 0] for _ in range(n)] for _ in range(m)]
+                yield c
+
+
+SMALL_INTS = ['uint8', 'uint16', 'uint32', 'uint64', 'int8', 'int16', 'int32']
+
+
+def gen_smallint(rng, tier, maxn):
+    """whole-pixel shift, shape and offset handed over as small-width / unsigned numpy integers (arrays or numpy scalars):
+    the arithmetic on them must not wrap"""
+    for rep in range(2 if tier == 'quick' else 10):
+        for op in ('dft2', 'idft2'):
+            for dt in SMALL_INTS:
+                unsigned = dt.startswith('u')
+                for _ in range(50):
+                    m, n = rng.randint(1, maxn), rng.randint(1, maxn)
+                    M, N = (m, n) if rng.random() < 0.4 else (rng.randint(1, maxn), rng.randint(1, maxn))
+                    lo = 0 if unsigned else -6
+                    c = {'op': op, 'f': rnd_data(rng, m, n), 'ar': str(rnd_alpha(rng, m)), 'ac': str(rnd_alpha(rng, n)),
+                         'M': M, 'N': N, 'shr': str(rng.randint(max(lo, 1) if rng.random() < 0.8 else lo, 6)),
+                         'shc': str(rng.randint(lo, 6)), 'unitary': rng.random() < 0.5, 'out': 'none',
+                         'forms': 'smallint:' + dt, 'intstyle': rng.choice(['array', 'scalars'])}
+                    if op == 'dft2':
+                        c['offr'], c['offc'] = rng.randint(lo, 5), rng.randint(lo, 5)
+                    if case_L(c) <= 96:
+                        break
                 yield c
 
 
@@ -487,6 +514,8 @@ def generate(rng, tier):
         yield c
     for c in gen_dtypes(rng, tier, maxn):
         yield c
+    for c in gen_smallint(rng, tier, maxn):
+        yield c
     out = 0
     while out < n_cases:
         t = rng.random()
@@ -690,7 +719,11 @@ def fresh_state():
 
 def run_history(lentil, c):
     out = []
-    for cl in c['calls']:
+    held = []
+    for k, cl in enumerate(c['calls']):
+        if held and k % 2 == 1:             # the caller edits an earlier result in place: later calls must not see it
+            held[-1][1][...] = 1e3 - 7j
+            held[-1] = (held[-1][0], held[-1][1], np.array(held[-1][1], copy=True))
         alpha = (float(Fraction(cl.get('ar', c['ar']))), float(Fraction(cl.get('ac', c['ac']))))
         f = to_np(cl['f'])
         shift = (float(Fraction(cl['shr'])), float(Fraction(cl['shc'])))
@@ -701,9 +734,15 @@ def run_history(lentil, c):
             else:
                 F = lentil.fourier.idft2(f, alpha, shape=(c['M'], c['N']), shift=shift, unitary=cl['unitary'])
             out.append({'arr': np.asarray(F).tolist()})
+            held.append((k, F, np.array(F, copy=True)))
         except Exception as e:
             out.append({'err': type(e).__name__})
-    return {'calls': out}
+    res = {'calls': out}
+    for k, F, snap in held:                 # a result must not be a view of memory a later call writes to
+        if not np.array_equal(np.asarray(F), snap):
+            res['held_changed'] = f'the array returned by call {k + 1} of the history was changed by a later call'
+            break
+    return res
 
 
 class Big(str):
@@ -838,6 +877,12 @@ def call_forms(c, f):
         f = [[complex(v) for v in row] for row in f]
     elif form == 'int_input':
         f = np.array([[int(v[0]) for v in row] for row in c['f']], dtype=np.int64)
+    elif form.startswith('smallint:'):       # whole-pixel shift, shape and offset as small-width numpy integers
+        dt = getattr(np, form[9:])
+        ints = lambda pair: (np.array(pair).astype(dt) if c.get('intstyle') == 'array' else (dt(pair[0]), dt(pair[1])))
+        shift = ints((int(Fraction(c['shr'])), int(Fraction(c['shc']))))
+        shape = ints(shape)
+        offset = ints(offset)
     elif form.startswith('dtype:'):          # a real-valued input array of the given dtype
         f = np.array([[v[0] for v in row] for row in c['f']]).astype(getattr(np, form[6:]))
     cont = c.get('container')
@@ -885,6 +930,28 @@ def unscale(c, F):
 
 
 def run_impl(c):
+    """every case runs under one of the caller-side numpy error states (default / raise / ignore), chosen from the case's
+    content, with warnings turned into errors; the library must neither depend on it nor change it"""
+    import warnings
+    mode = ['default', 'raise', 'ignore'][int(C.case_hash({k: v for k, v in c.items() if not k.startswith('_')})[:2], 16) % 3]
+    before = np.geterr()
+    with warnings.catch_warnings():
+        if mode != 'default':           # numeric warnings become errors (not the deprecation notices of np.matrix etc.)
+            warnings.simplefilter('error', RuntimeWarning)
+            warnings.simplefilter('error', np.ComplexWarning)
+        ctx = np.errstate(over=mode, invalid=mode, divide=mode) if mode != 'default' else np.errstate()
+        with ctx:
+            inside = np.geterr()
+            res = run_impl_inner(c)
+            changed = np.geterr() != inside
+    if isinstance(res, dict) and (changed or np.geterr() != before):
+        res['errstate_changed'] = True
+    if isinstance(res, dict):
+        res['errmode'] = mode
+    return res
+
+
+def run_impl_inner(c):
     lentil = C.import_lentil()
     fresh_state()
     if c['op'] == 'hist':
@@ -980,6 +1047,10 @@ def defining_sum(f, ar, ac, M, N, shr, shc, offr, offc, unitary):
 
 
 def oracle(c, impl):
+    if isinstance(impl, dict) and impl.get('errstate_changed'):
+        return 'the call changed the caller\'s numpy error state (np.geterr() before != after)'
+    if isinstance(impl, dict) and impl.get('held_changed'):
+        return impl['held_changed']
     if c['op'] == 'api':
         if not c['valid']:
             return None                 # which malformed calls are refused, and how, is the correspondence's business
